@@ -268,3 +268,43 @@ func VerifC14Acc() {
 		zzverif.Assert(verifSameAny(got, want), "acc-equals-definition")
 	}
 }
+
+// VerifC14ChangedMulti: had_changed(ignoreNull, c1, c2) over several value columns: true on the first
+// row; afterwards true iff SOME column's value differs from that column's own most recent non-skipped
+// value - every column keeps its own baseline, whatever the other columns did on the same row.
+func VerifC14ChangedMulti() {
+	m := zzverif.Param("rows", 3)
+	kinds := zzverif.Param("kinds", 3)
+	ncols := zzverif.Param("cols", 2)
+	ignoreNull := zzverif.Choose("ignoreNull", 2) == 1
+	hc := NewHadChangedFunction().NewState()
+	prev := make([]any, ncols)
+	first := true
+	for i := 0; i < m; i++ {
+		vals := make([]any, ncols)
+		args := []any{ignoreNull}
+		for c := 0; c < ncols; c++ {
+			vals[c] = verifAVal("v", kinds)
+			args = append(args, vals[c])
+		}
+		got := hc.Apply(args)
+		want := false
+		if first {
+			want = true
+			first = false
+			copy(prev, vals)
+		} else {
+			for c := 0; c < ncols; c++ {
+				if ignoreNull && vals[c] == nil {
+					continue
+				}
+				if !verifAEq(prev[c], vals[c]) {
+					want = true
+				}
+				prev[c] = vals[c]
+			}
+		}
+		b, ok := got.(bool)
+		zzverif.Assert(ok && b == want, "had_changed-multi-column-equals-definition")
+	}
+}
